@@ -49,6 +49,10 @@ impl InputEvent {
         matches!(&self.event, Event::Comment(_))
     }
 
+    pub fn is_pi(&self) -> bool {
+        matches!(&self.event, Event::PI(_))
+    }
+
     pub fn cdata_string(&self) -> Option<String> {
         match &self.event {
             Event::CData(c) => Some(String::from_utf8(c.to_vec()).expect("utf8")),
@@ -294,12 +298,15 @@ pub enum Tag {
 }
 
 impl Tag {
-    fn set_text(&mut self, text: String) {
+    /// Add to the character data which follows this tag; adjacent pieces (text,
+    /// CDATA sections) make up one text. Gives the text back if this tag has no tail.
+    fn add_text(&mut self, text: String) -> Option<String> {
         match self {
-            Tag::Compound(_, tail) => *tail = Some(text),
-            Tag::Leaf(_, tail) => *tail = Some(text),
-            Tag::Comment(_, tail) => *tail = Some(text),
-            _ => {}
+            Tag::Compound(_, tail) | Tag::Leaf(_, tail) | Tag::Comment(_, tail) => {
+                *tail = Some(tail.take().unwrap_or_default() + &text);
+                None
+            }
+            _ => Some(text),
         }
     }
 
@@ -369,17 +376,19 @@ pub fn tagify_events(events: InputList) -> Result<Vec<Tag>> {
             }
             Event::Text(t) => {
                 let text = unescape_text(t);
-                if let Some(t) = tags.last_mut() {
-                    t.set_text(text)
-                } else {
+                if let Some(text) = match tags.last_mut() {
+                    Some(t) => t.add_text(text),
+                    None => Some(text),
+                } {
                     tags.push(Tag::Text(text));
                 }
             }
             Event::CData(c) => {
                 let text = String::from_utf8(c.to_vec())?;
-                if let Some(t) = tags.last_mut() {
-                    t.set_text(text)
-                } else {
+                if let Some(text) = match tags.last_mut() {
+                    Some(t) => t.add_text(text),
+                    None => Some(text),
+                } {
                     tags.push(Tag::CData(text));
                 }
             }
